@@ -30,6 +30,8 @@ pub struct Bounds {
     pub modes: Vec<Mode>,
     pub max_mode_changes: usize,
     pub kills: usize,
+    /// how many service futures may panic (Ev::Fail)
+    pub conn_panics: usize,
     pub drop_stop: bool,
     /// nested events per top-level event (0 = turns are atomic)
     pub nested: usize,
@@ -55,6 +57,7 @@ impl Default for Bounds {
             modes: vec![],
             max_mode_changes: 0,
             kills: 0,
+            conn_panics: 0,
             drop_stop: false,
             nested: 0,
             nested_generic: 0,
@@ -148,6 +151,7 @@ pub struct Used {
     pub injects: usize,
     pub mode_changes: usize,
     pub kills: usize,
+    pub conn_panics: usize,
     pub drop_stops: usize,
     pub signals: usize,
 }
@@ -163,6 +167,7 @@ pub fn used(history: &[Step]) -> Used {
             Ev::SetReady { mode: Mode::PanicOnce, .. } => u.kills += 1,
             Ev::SetReady { .. } => u.mode_changes += 1,
             Ev::DropStop(_) => u.drop_stops += 1,
+            Ev::Fail(_) => u.conn_panics += 1,
             _ => {}
         }
     }
@@ -203,6 +208,9 @@ pub fn enabled(sys: &Sys, b: &Bounds, u: &Used, conns: &[ConnInfo]) -> Vec<Ev> {
             if let Phase::Serving(slot) = conns[c].phase {
                 if verif::worker_local_present(slot) {
                     v.push(Ev::Complete(c));
+                    if u.conn_panics < b.conn_panics {
+                        v.push(Ev::Fail(c));
+                    }
                 }
             }
         }
